@@ -60,10 +60,19 @@ class Facts:
     def trait_method_bodies(self, trait_suffix, method):
         """Bodies of `method` in every impl of the trait (user-written and derived)."""
         out = []
+        inline = trait_suffix == "opcode::Opcode" and method == "execute"
+        cache = self.__dict__.setdefault("_inlined_execs", {})
         for i in self.impls_of_trait(trait_suffix):
             for it in i["items"]:
                 if it["name"] == method and it["def"] in self.bodies:
-                    out.append((i, self.bodies[it["def"]]))
+                    b = self.bodies[it["def"]]
+                    if inline and b.get("hir"):
+                        # an instruction's implementation is read together with the private free functions of its module
+                        # (a body shared by RETURN and REVERT, a poll helper of the copy instructions)
+                        if it["def"] not in cache:
+                            cache[it["def"]] = inline_module_helpers(self, b, max_nodes=600)
+                        b = cache[it["def"]]
+                    out.append((i, b))
         return out
 
     def adt(self, name):
@@ -696,6 +705,16 @@ class CallGraph:
         return {a for a, bs in self.edges.items() if target in bs}
 
 
+INLINED_ARGS = {}
+
+
+def _remember_inlined_args(args):
+    """The argument expressions of a call that was replaced by its callee's body, kept outside the tree (tree walkers would
+    otherwise visit them a second time)."""
+    INLINED_ARGS[len(INLINED_ARGS) + 1] = list(args)
+    return len(INLINED_ARGS)
+
+
 def inline_module_helpers(fx, body, max_nodes=400, methods=False):
     """A copy of `body` whose HIR has the calls of small free functions of the SAME module replaced by a block that binds the
     parameters to the arguments and runs the helper's body (locals renumbered), so that a structural analysis of one function
@@ -704,6 +723,9 @@ def inline_module_helpers(fx, body, max_nodes=400, methods=False):
     import copy
 
     mod = body["def"].rsplit("::", 1)[0] + "::"
+    if body["def"].startswith("<") and body.get("impl_self"):
+        # a trait method: the module is that of the implementing type
+        mod = strip_generics(body["impl_self"]).rsplit("::", 1)[0] + "::"
     offset = [1_000_000]
 
     def renumber(node, off):
@@ -727,7 +749,7 @@ def inline_module_helpers(fx, body, max_nodes=400, methods=False):
         if (is_call or is_self_method) and depth < 2:
             d = (callee_def(out) if is_call else (out.get("def") or "")) or ""
             hb = None
-            if is_call and d.startswith(mod) and d != body["def"]:
+            if is_call and d.rsplit("::", 1)[0] + "::" == mod and d != body["def"]:
                 hb = fx.body(d)
                 if hb is not None and (hb.get("impl_self") or str(hb.get("kind", "")).lower() != "fn"):
                     hb = None
@@ -767,7 +789,29 @@ def inline_module_helpers(fx, body, max_nodes=400, methods=False):
                         else:
                             stmts.append({"s": "Let", "pat": p, "init": a, "span": out.get("span")})
                     hv = rewrite(h["value"], depth + 1)
-                    return {"k": "Block", "block": {"stmts": stmts, "expr": hv}, "ty": out.get("ty"), "span": out.get("span"), "inlined_from": d}
+                    # a closure handed to the helper and called there (`wrap(data)`) is applied in place
+                    clos = {}
+                    for st in stmts:
+                        ci = strip(st["init"]) if isinstance(st.get("init"), dict) else {}
+                        if st["pat"].get("p") == "Bind" and ci.get("k") == "Closure":
+                            clos[st["pat"]["local"]] = ci
+
+                    def beta(node):
+                        if isinstance(node, list):
+                            return [beta(x) for x in node]
+                        if not isinstance(node, dict):
+                            return node
+                        node = {k_: beta(v_) for k_, v_ in node.items()}
+                        if node.get("k") == "Call" and isinstance(node.get("f"), dict) and node["f"].get("k") == "Path" and node["f"].get("res") == "local" and node["f"].get("local") in clos:
+                            c = clos[node["f"]["local"]]
+                            if len(c.get("params", [])) == len(node.get("args", [])):
+                                lets = [{"s": "Let", "pat": cp, "init": ca, "span": node.get("span")} for cp, ca in zip(c["params"], node["args"])]
+                                return {"k": "Block", "block": {"stmts": lets, "expr": c["body"]}, "ty": node.get("ty"), "span": node.get("span")}
+                        return node
+
+                    if clos:
+                        hv = beta(hv)
+                    return {"k": "Block", "block": {"stmts": stmts, "expr": hv}, "ty": out.get("ty"), "span": out.get("span"), "inlined_from": d, "inlined_id": _remember_inlined_args(out.get("args", []))}
         return out
 
     new = dict(body)
